@@ -131,6 +131,11 @@ func (r *Rec) State(s string) {
 }
 
 func (r *Rec) Fault(kind string) { r.res.Faults[kind]++ }
+func (r *Rec) FaultN(kind string, n int) {
+	if n > 0 {
+		r.res.Faults[kind] += n
+	}
+}
 func (r *Rec) Probe(name string) { r.res.Probes[name]++ }
 func (r *Rec) ProbeN(name string, n int) {
 	if n != 0 {
